@@ -455,6 +455,7 @@ package bluemonday
 //@   ensures[C17] forall k int :: 0 <= k && k < len(abp.attrNames) ==> abp.attrNames[k] in abp.p.globalAttrs
 //@   ensures[C17] forall a string, j int :: a in abp.p.globalAttrs && 0 <= j && j < len(abp.p.globalAttrs[a]) && !old(a in abp.p.globalAttrs && j < len(abp.p.globalAttrs[a])) ==> abp.p.globalAttrs[a][j].regexp == abp.regexp && (exists k int :: 0 <= k && k < len(abp.attrNames) && a == abp.attrNames[k])
 //@   ensures[C17] forall a string, j int :: old(a in abp.p.globalAttrs && 0 <= j && j < len(abp.p.globalAttrs[a])) ==> j < len(abp.p.globalAttrs[a]) && abp.p.globalAttrs[a][j] == old(abp.p.globalAttrs[a][j])
+//@   ensures[C17] forall a string :: a in abp.p.globalAttrs ==> old(a in abp.p.globalAttrs) || (exists k int :: 0 <= k && k < len(abp.attrNames) && a == abp.attrNames[k])
 //@   loop 0 "for _, attr := range abp.attrNames"
 //@     invariant wfb(abp) && abp.p == old(abp.p) && abp.p.globalAttrs == old(abp.p.globalAttrs) && abp.attrNames == old(abp.attrNames) && abp.regexp == old(abp.regexp)
 //@     invariant forall i int :: 0 <= i && i < len(abp.attrNames) ==> abp.attrNames[i] == pre(abp.attrNames[i])
@@ -463,6 +464,7 @@ package bluemonday
 //@     invariant[C17] rangeindex < len(abp.attrNames) && (forall a string, j int :: a in abp.p.globalAttrs && 0 <= j && j < len(abp.p.globalAttrs[a]) && !old(a in abp.p.globalAttrs && j < len(abp.p.globalAttrs[a])) ==> abp.p.globalAttrs[a][j].regexp == abp.regexp && (exists k int :: 0 <= k && k <= rangeindex && a == abp.attrNames[k]))
 //@     invariant[C17] forall a string, j int :: old(a in abp.p.globalAttrs && 0 <= j && j < len(abp.p.globalAttrs[a])) ==> j < len(abp.p.globalAttrs[a]) && abp.p.globalAttrs[a][j] == old(abp.p.globalAttrs[a][j])
 //@     invariant forall a string :: a in abp.p.globalAttrs ==> arr(abp.p.globalAttrs[a]) == nil || allocated(arr(abp.p.globalAttrs[a]))
+//@     invariant[C17] forall a string :: a in abp.p.globalAttrs ==> old(a in abp.p.globalAttrs) || (exists k int :: 0 <= k && k < len(abp.attrNames) && a == abp.attrNames[k])
 
 //@ func (*bluemonday.attrPolicyBuilder).OnElements
 //@   reveal wfRegex, wfInner, wfURLPols
@@ -473,6 +475,8 @@ package bluemonday
 //@   ensures[C17] forall e string :: old(e in abp.p.elsAndAttrs) ==> e in abp.p.elsAndAttrs
 //@   ensures[C17] forall e string, a string, j int :: old(e in abp.p.elsAndAttrs && a in abp.p.elsAndAttrs[e] && 0 <= j && j < len(abp.p.elsAndAttrs[e][a])) ==> (a in abp.p.elsAndAttrs[e] && j < len(abp.p.elsAndAttrs[e][a]) && abp.p.elsAndAttrs[e][a][j] == old(abp.p.elsAndAttrs[e][a][j]))
 //@   ensures[C17] forall e string, a string, j int :: e in abp.p.elsAndAttrs && a in abp.p.elsAndAttrs[e] && 0 <= j && j < len(abp.p.elsAndAttrs[e][a]) && !old(e in abp.p.elsAndAttrs && a in abp.p.elsAndAttrs[e] && j < len(abp.p.elsAndAttrs[e][a])) ==> abp.p.elsAndAttrs[e][a][j].regexp == abp.regexp && (exists k int :: 0 <= k && k < len(abp.attrNames) && a == abp.attrNames[k])
+//@   ensures[C17] forall e string :: e in abp.p.elsAndAttrs ==> old(e in abp.p.elsAndAttrs) || (exists k int :: 0 <= k && k < len(elements) && e == strings.ToLower(elements[k]))
+//@   ensures[C17] forall e string :: e in abp.p.setOfElementsAllowedWithoutAttrs ==> old(e in abp.p.setOfElementsAllowedWithoutAttrs) || (exists k int :: 0 <= k && k < len(elements) && e == strings.ToLower(elements[k]))
 //@   before "if abp.allowEmpty {"
 //@     lemma[C17] forall e string, a string, j int :: e in abp.p.elsAndAttrs && a in abp.p.elsAndAttrs[e] && 0 <= j && j < len(abp.p.elsAndAttrs[e][a]) && !old(e in abp.p.elsAndAttrs && a in abp.p.elsAndAttrs[e] && j < len(abp.p.elsAndAttrs[e][a])) ==> abp.p.elsAndAttrs[e][a][j].regexp == abp.regexp && (exists k int :: 0 <= k && k < len(abp.attrNames) && a == abp.attrNames[k])
 //@   loop 0 "for _, element := range elements"
@@ -483,6 +487,8 @@ package bluemonday
 //@     invariant[C17] forall e string :: old(e in abp.p.elsAndAttrs) ==> e in abp.p.elsAndAttrs
 //@     invariant[C17] forall e string, a string, j int :: old(e in abp.p.elsAndAttrs && a in abp.p.elsAndAttrs[e] && 0 <= j && j < len(abp.p.elsAndAttrs[e][a])) ==> (a in abp.p.elsAndAttrs[e] && j < len(abp.p.elsAndAttrs[e][a]) && abp.p.elsAndAttrs[e][a][j] == old(abp.p.elsAndAttrs[e][a][j]))
 //@     invariant forall e string, a string :: e in abp.p.elsAndAttrs && a in abp.p.elsAndAttrs[e] ==> arr(abp.p.elsAndAttrs[e][a]) == nil || allocated(arr(abp.p.elsAndAttrs[e][a]))
+//@     invariant[C17] forall e string :: e in abp.p.elsAndAttrs ==> old(e in abp.p.elsAndAttrs) || (exists k int :: 0 <= k && k < len(elements) && e == strings.ToLower(elements[k]))
+//@     invariant[C17] forall e string :: e in abp.p.setOfElementsAllowedWithoutAttrs ==> old(e in abp.p.setOfElementsAllowedWithoutAttrs) || (exists k int :: 0 <= k && k < len(elements) && e == strings.ToLower(elements[k]))
 //@   loop 1 "for _, attr := range abp.attrNames"
 //@     invariant[C17] (forall e string, a string, j int :: e in abp.p.elsAndAttrs && a in abp.p.elsAndAttrs[e] && 0 <= j && j < len(abp.p.elsAndAttrs[e][a]) && !old(e in abp.p.elsAndAttrs && a in abp.p.elsAndAttrs[e] && j < len(abp.p.elsAndAttrs[e][a])) ==> abp.p.elsAndAttrs[e][a][j].regexp == abp.regexp && (exists k int :: 0 <= k && k < len(abp.attrNames) && a == abp.attrNames[k]))
 //@     invariant wfb(abp) && abp.p == old(abp.p) && abp.p.elsAndAttrs == old(abp.p.elsAndAttrs) && abp.p.setOfElementsAllowedWithoutAttrs == old(abp.p.setOfElementsAllowedWithoutAttrs) && abp.attrNames == old(abp.attrNames) && abp.regexp == old(abp.regexp) && abp.allowEmpty == old(abp.allowEmpty)
@@ -491,6 +497,9 @@ package bluemonday
 //@     invariant[C17] forall e string :: old(e in abp.p.elsAndAttrs) ==> e in abp.p.elsAndAttrs
 //@     invariant[C17] forall e string, a string, j int :: old(e in abp.p.elsAndAttrs && a in abp.p.elsAndAttrs[e] && 0 <= j && j < len(abp.p.elsAndAttrs[e][a])) ==> (a in abp.p.elsAndAttrs[e] && j < len(abp.p.elsAndAttrs[e][a]) && abp.p.elsAndAttrs[e][a][j] == old(abp.p.elsAndAttrs[e][a][j]))
 //@     invariant forall e string, a string :: e in abp.p.elsAndAttrs && a in abp.p.elsAndAttrs[e] ==> arr(abp.p.elsAndAttrs[e][a]) == nil || allocated(arr(abp.p.elsAndAttrs[e][a]))
+//@     invariant[C17] forall e string :: e in abp.p.elsAndAttrs ==> old(e in abp.p.elsAndAttrs) || (exists k int :: 0 <= k && k < len(elements) && e == strings.ToLower(elements[k]))
+//@     invariant[C17] forall e string :: e in abp.p.setOfElementsAllowedWithoutAttrs ==> old(e in abp.p.setOfElementsAllowedWithoutAttrs) || (exists k int :: 0 <= k && k < len(elements) && e == strings.ToLower(elements[k]))
+//@     invariant[C17] exists k int :: 0 <= k && k < len(elements) && element == strings.ToLower(elements[k])
 
 //@ func (*bluemonday.attrPolicyBuilder).OnElementsMatching
 //@   reveal wfRegex, wfInner, wfURLPols
@@ -501,6 +510,7 @@ package bluemonday
 //@   ensures[C17] forall e *regexp.Regexp :: old(e in abp.p.elsMatchingAndAttrs) ==> e in abp.p.elsMatchingAndAttrs
 //@   ensures[C17] forall e *regexp.Regexp, a string, j int :: old(e in abp.p.elsMatchingAndAttrs && a in abp.p.elsMatchingAndAttrs[e] && 0 <= j && j < len(abp.p.elsMatchingAndAttrs[e][a])) ==> (a in abp.p.elsMatchingAndAttrs[e] && j < len(abp.p.elsMatchingAndAttrs[e][a]) && abp.p.elsMatchingAndAttrs[e][a][j] == old(abp.p.elsMatchingAndAttrs[e][a][j]))
 //@   ensures[C17] forall e *regexp.Regexp, a string, j int :: e in abp.p.elsMatchingAndAttrs && a in abp.p.elsMatchingAndAttrs[e] && 0 <= j && j < len(abp.p.elsMatchingAndAttrs[e][a]) && !old(e in abp.p.elsMatchingAndAttrs && a in abp.p.elsMatchingAndAttrs[e] && j < len(abp.p.elsMatchingAndAttrs[e][a])) ==> abp.p.elsMatchingAndAttrs[e][a][j].regexp == abp.regexp && (exists k int :: 0 <= k && k < len(abp.attrNames) && a == abp.attrNames[k])
+//@   ensures[C17] forall e *regexp.Regexp :: e in abp.p.elsMatchingAndAttrs ==> old(e in abp.p.elsMatchingAndAttrs) || e == regex
 //@   before "if abp.allowEmpty {"
 //@     lemma[C17] forall e *regexp.Regexp, a string, j int :: e in abp.p.elsMatchingAndAttrs && a in abp.p.elsMatchingAndAttrs[e] && 0 <= j && j < len(abp.p.elsMatchingAndAttrs[e][a]) && !old(e in abp.p.elsMatchingAndAttrs && a in abp.p.elsMatchingAndAttrs[e] && j < len(abp.p.elsMatchingAndAttrs[e][a])) ==> abp.p.elsMatchingAndAttrs[e][a][j].regexp == abp.regexp && (exists k int :: 0 <= k && k < len(abp.attrNames) && a == abp.attrNames[k])
 //@   loop 0 "for _, attr := range abp.attrNames"
@@ -510,6 +520,7 @@ package bluemonday
 //@     invariant[C17] forall e *regexp.Regexp :: old(e in abp.p.elsMatchingAndAttrs) ==> e in abp.p.elsMatchingAndAttrs
 //@     invariant[C17] forall e *regexp.Regexp, a string, j int :: old(e in abp.p.elsMatchingAndAttrs && a in abp.p.elsMatchingAndAttrs[e] && 0 <= j && j < len(abp.p.elsMatchingAndAttrs[e][a])) ==> (a in abp.p.elsMatchingAndAttrs[e] && j < len(abp.p.elsMatchingAndAttrs[e][a]) && abp.p.elsMatchingAndAttrs[e][a][j] == old(abp.p.elsMatchingAndAttrs[e][a][j]))
 //@     invariant forall e *regexp.Regexp, a string :: e in abp.p.elsMatchingAndAttrs && a in abp.p.elsMatchingAndAttrs[e] ==> arr(abp.p.elsMatchingAndAttrs[e][a]) == nil || allocated(arr(abp.p.elsMatchingAndAttrs[e][a]))
+//@     invariant[C17] forall e *regexp.Regexp :: e in abp.p.elsMatchingAndAttrs ==> old(e in abp.p.elsMatchingAndAttrs) || e == regex
 
 //@ func (*bluemonday.Policy).AllowStyles
 //@   reveal wfRegex, wfInner, wfURLPols
@@ -546,6 +557,7 @@ package bluemonday
 //@   ensures[C17] forall e string :: old(e in spb.p.elsAndStyles) ==> e in spb.p.elsAndStyles
 //@   ensures[C10] forall e string, a string, j int :: old(e in spb.p.elsAndStyles && a in spb.p.elsAndStyles[e] && 0 <= j && j < len(spb.p.elsAndStyles[e][a])) ==> (e in spb.p.elsAndStyles && a in spb.p.elsAndStyles[e] && j < len(spb.p.elsAndStyles[e][a]) && spb.p.elsAndStyles[e][a][j] == old(spb.p.elsAndStyles[e][a][j]))
 //@   ensures[C10] forall e string, a string, j int :: e in spb.p.elsAndStyles && a in spb.p.elsAndStyles[e] && 0 <= j && j < len(spb.p.elsAndStyles[e][a]) && !old(e in spb.p.elsAndStyles && a in spb.p.elsAndStyles[e] && j < len(spb.p.elsAndStyles[e][a])) ==> matcherFrom(spb, a, spb.p.elsAndStyles[e][a][j])
+//@   ensures[C17] forall e string :: e in spb.p.elsAndStyles ==> old(e in spb.p.elsAndStyles) || (exists k int :: 0 <= k && k < len(elements) && e == strings.ToLower(elements[k]))
 //@   loop 0 "for _, element := range elements"
 //@     invariant wfsb(spb) && spb.p == old(spb.p) && spb.p.elsAndStyles == old(spb.p.elsAndStyles)
 //@     invariant[C10] spb.handler == old(spb.handler) && spb.enum == old(spb.enum) && spb.regexp == old(spb.regexp)
@@ -554,6 +566,7 @@ package bluemonday
 //@     invariant[C10] forall e string, a string, j int :: e in spb.p.elsAndStyles && a in spb.p.elsAndStyles[e] && 0 <= j && j < len(spb.p.elsAndStyles[e][a]) && !old(e in spb.p.elsAndStyles && a in spb.p.elsAndStyles[e] && j < len(spb.p.elsAndStyles[e][a])) ==> matcherFrom(spb, a, spb.p.elsAndStyles[e][a][j])
 //@     invariant forall e string :: e in spb.p.elsAndStyles ==> (old(e in spb.p.elsAndStyles) && spb.p.elsAndStyles[e] == old(spb.p.elsAndStyles[e])) || fresh(spb.p.elsAndStyles[e])
 //@     invariant[C17] forall e string :: old(e in spb.p.elsAndStyles) ==> e in spb.p.elsAndStyles
+//@     invariant[C17] forall e string :: e in spb.p.elsAndStyles ==> old(e in spb.p.elsAndStyles) || (exists k int :: 0 <= k && k < len(elements) && e == strings.ToLower(elements[k]))
 //@   loop 1 "for _, attr := range spb.propertyNames"
 //@     invariant wfsb(spb) && spb.p == old(spb.p) && spb.p.elsAndStyles == old(spb.p.elsAndStyles)
 //@     invariant[C10] spb.handler == old(spb.handler) && spb.enum == old(spb.enum) && spb.regexp == old(spb.regexp)
@@ -562,6 +575,8 @@ package bluemonday
 //@     invariant[C10] forall e string, a string, j int :: e in spb.p.elsAndStyles && a in spb.p.elsAndStyles[e] && 0 <= j && j < len(spb.p.elsAndStyles[e][a]) && !old(e in spb.p.elsAndStyles && a in spb.p.elsAndStyles[e] && j < len(spb.p.elsAndStyles[e][a])) ==> matcherFrom(spb, a, spb.p.elsAndStyles[e][a][j])
 //@     invariant forall e string :: e in spb.p.elsAndStyles ==> (old(e in spb.p.elsAndStyles) && spb.p.elsAndStyles[e] == old(spb.p.elsAndStyles[e])) || fresh(spb.p.elsAndStyles[e])
 //@     invariant[C17] forall e string :: old(e in spb.p.elsAndStyles) ==> e in spb.p.elsAndStyles
+//@     invariant[C17] forall e string :: e in spb.p.elsAndStyles ==> old(e in spb.p.elsAndStyles) || (exists k int :: 0 <= k && k < len(elements) && e == strings.ToLower(elements[k]))
+//@     invariant[C17] exists k int :: 0 <= k && k < len(elements) && element == strings.ToLower(elements[k])
 
 //@ func (*bluemonday.stylePolicyBuilder).OnElementsMatching
 //@   reveal wfRegex, wfInner, wfURLPols
@@ -571,6 +586,7 @@ package bluemonday
 //@   ensures result == spb.p && wfp(spb.p) && spb.p.initialized
 //@   ensures[C10] forall e *regexp.Regexp, a string, j int :: old(e in spb.p.elsMatchingAndStyles && a in spb.p.elsMatchingAndStyles[e] && 0 <= j && j < len(spb.p.elsMatchingAndStyles[e][a])) ==> (e in spb.p.elsMatchingAndStyles && a in spb.p.elsMatchingAndStyles[e] && j < len(spb.p.elsMatchingAndStyles[e][a]) && spb.p.elsMatchingAndStyles[e][a][j] == old(spb.p.elsMatchingAndStyles[e][a][j]))
 //@   ensures[C10] forall e *regexp.Regexp, a string, j int :: e in spb.p.elsMatchingAndStyles && a in spb.p.elsMatchingAndStyles[e] && 0 <= j && j < len(spb.p.elsMatchingAndStyles[e][a]) && !old(e in spb.p.elsMatchingAndStyles && a in spb.p.elsMatchingAndStyles[e] && j < len(spb.p.elsMatchingAndStyles[e][a])) ==> matcherFrom(spb, a, spb.p.elsMatchingAndStyles[e][a][j])
+//@   ensures[C17] forall e *regexp.Regexp :: e in spb.p.elsMatchingAndStyles ==> old(e in spb.p.elsMatchingAndStyles) || e == regex
 //@   loop 0 "for _, attr := range spb.propertyNames"
 //@     invariant wfsb(spb) && spb.p == old(spb.p) && spb.p.elsMatchingAndStyles == old(spb.p.elsMatchingAndStyles)
 //@     invariant[C10] spb.handler == old(spb.handler) && spb.enum == old(spb.enum) && spb.regexp == old(spb.regexp)
@@ -578,6 +594,7 @@ package bluemonday
 //@     invariant[C10] forall e *regexp.Regexp, a string, j int :: old(e in spb.p.elsMatchingAndStyles && a in spb.p.elsMatchingAndStyles[e] && 0 <= j && j < len(spb.p.elsMatchingAndStyles[e][a])) ==> (e in spb.p.elsMatchingAndStyles && a in spb.p.elsMatchingAndStyles[e] && j < len(spb.p.elsMatchingAndStyles[e][a]) && spb.p.elsMatchingAndStyles[e][a][j] == old(spb.p.elsMatchingAndStyles[e][a][j]))
 //@     invariant[C10] forall e *regexp.Regexp, a string, j int :: e in spb.p.elsMatchingAndStyles && a in spb.p.elsMatchingAndStyles[e] && 0 <= j && j < len(spb.p.elsMatchingAndStyles[e][a]) && !old(e in spb.p.elsMatchingAndStyles && a in spb.p.elsMatchingAndStyles[e] && j < len(spb.p.elsMatchingAndStyles[e][a])) ==> matcherFrom(spb, a, spb.p.elsMatchingAndStyles[e][a][j])
 //@     invariant forall e *regexp.Regexp :: e in spb.p.elsMatchingAndStyles ==> (old(e in spb.p.elsMatchingAndStyles) && spb.p.elsMatchingAndStyles[e] == old(spb.p.elsMatchingAndStyles[e])) || fresh(spb.p.elsMatchingAndStyles[e])
+//@     invariant[C17] forall e *regexp.Regexp :: e in spb.p.elsMatchingAndStyles ==> old(e in spb.p.elsMatchingAndStyles) || e == regex
 
 //@ func (*bluemonday.stylePolicyBuilder).Globally
 //@   reveal wfRegex, wfInner, wfURLPols
@@ -587,6 +604,7 @@ package bluemonday
 //@   ensures[C17] forall a string :: old(a in spb.p.globalStyles) ==> a in spb.p.globalStyles
 //@   ensures[C10] forall a string, j int :: old(a in spb.p.globalStyles && 0 <= j && j < len(spb.p.globalStyles[a])) ==> (a in spb.p.globalStyles && j < len(spb.p.globalStyles[a]) && spb.p.globalStyles[a][j] == old(spb.p.globalStyles[a][j]))
 //@   ensures[C10] forall a string, j int :: a in spb.p.globalStyles && 0 <= j && j < len(spb.p.globalStyles[a]) && !old(a in spb.p.globalStyles && j < len(spb.p.globalStyles[a])) ==> matcherFrom(spb, a, spb.p.globalStyles[a][j])
+//@   ensures[C17] forall a string :: a in spb.p.globalStyles ==> old(a in spb.p.globalStyles) || (exists k int :: 0 <= k && k < len(spb.propertyNames) && a == spb.propertyNames[k])
 //@   loop 0 "for _, attr := range spb.propertyNames"
 //@     invariant wfsb(spb) && spb.p == old(spb.p) && spb.p.globalStyles == old(spb.p.globalStyles)
 //@     invariant[C10] spb.handler == old(spb.handler) && spb.enum == old(spb.enum) && spb.regexp == old(spb.regexp)
@@ -594,6 +612,7 @@ package bluemonday
 //@     invariant[C10] forall a string, j int :: old(a in spb.p.globalStyles && 0 <= j && j < len(spb.p.globalStyles[a])) ==> (a in spb.p.globalStyles && j < len(spb.p.globalStyles[a]) && spb.p.globalStyles[a][j] == old(spb.p.globalStyles[a][j]))
 //@     invariant[C10] forall a string, j int :: a in spb.p.globalStyles && 0 <= j && j < len(spb.p.globalStyles[a]) && !old(a in spb.p.globalStyles && j < len(spb.p.globalStyles[a])) ==> matcherFrom(spb, a, spb.p.globalStyles[a][j])
 //@     invariant[C17] forall a string :: old(a in spb.p.globalStyles) ==> a in spb.p.globalStyles
+//@     invariant[C17] forall a string :: a in spb.p.globalStyles ==> old(a in spb.p.globalStyles) || (exists k int :: 0 <= k && k < len(spb.propertyNames) && a == spb.propertyNames[k])
 
 //@ func (*bluemonday.Policy).AllowElements
 //@   reveal wfRegex, wfInner, wfURLPols
@@ -603,11 +622,13 @@ package bluemonday
 //@   ensures result == p && wfp(p) && p.initialized
 //@   ensures[C17] forall e string :: old(p.initialized && e in p.elsAndAttrs) ==> e in p.elsAndAttrs && p.elsAndAttrs[e] == old(p.elsAndAttrs[e])
 //@   ensures[C17] forall i int :: 0 <= i && i < len(names) ==> strings.ToLower(names[i]) in p.elsAndAttrs
+//@   ensures[C17] forall e string :: e in p.elsAndAttrs ==> old(p.initialized && e in p.elsAndAttrs) || (exists k int :: 0 <= k && k < len(names) && e == strings.ToLower(names[k]))
 //@   loop 0 "for _, element := range names"
 //@     invariant wfp(p) && p.initialized && (old(p.initialized) ==> p.elsAndAttrs == old(p.elsAndAttrs))
 //@     invariant forall i int :: 0 <= i && i < len(names) ==> names[i] == pre(names[i])
 //@     invariant[C17] forall e string :: old(p.initialized && e in p.elsAndAttrs) ==> e in p.elsAndAttrs && p.elsAndAttrs[e] == old(p.elsAndAttrs[e])
 //@     invariant[C17] forall i int :: 0 <= i && i <= rangeindex ==> strings.ToLower(names[i]) in p.elsAndAttrs
+//@     invariant[C17] forall e string :: e in p.elsAndAttrs ==> old(p.initialized && e in p.elsAndAttrs) || (exists k int :: 0 <= k && k < len(names) && e == strings.ToLower(names[k]))
 
 //@ func (*bluemonday.Policy).AllowElementsMatching
 //@   reveal wfRegex, wfInner, wfURLPols
@@ -616,6 +637,7 @@ package bluemonday
 //@   modifies p.elsMatchingAndAttrs
 //@   ensures result == p && wfp(p) && p.initialized
 //@   ensures[C17] regex in p.elsMatchingAndAttrs && (forall r *regexp.Regexp :: old(p.initialized && r in p.elsMatchingAndAttrs) ==> r in p.elsMatchingAndAttrs)
+//@   ensures[C17] forall r *regexp.Regexp :: r in p.elsMatchingAndAttrs ==> old(p.initialized && r in p.elsMatchingAndAttrs) || r == regex
 
 //@ func (*bluemonday.Policy).AllowURLSchemesMatching
 //@   reveal wfRegex, wfInner, wfURLPols
